@@ -69,6 +69,71 @@ def listener_scheduling(ctx: Ctx, scale=1.0):
         raise tlc.MachineryError("vacuity: the TIME_CHANGED listeners scheduled almost nothing")
 
 
+def segment_listeners(ctx: Ctx, scale=1.0):
+    """RunListeners.tla: bounded segments; the listeners of START / TIME_CHANGED / WARMUP / STOP schedule and cancel events"""
+    import random
+    from harness import tlc, traces
+    from harness import drive_tclisten as dt
+    c = {"EndT": "3", "WarmT": "1", "MaxEv": "4" if ctx.quick else "5", "Delays": "{0, 1, 2}", "Prios": "{1, 5}", "Bounds": "{1, 2}", "StampLag": "FALSE"}
+    invs = ["NothingInThePast", "StampIsNow", "ExactlyOnce", "ExecutedInOrder", "NeverBeyondEnd", "SegmentComplete"]
+    props = ["ClockMonotone", "StampsMonotone"]
+    files, mod, cfg = tlc.mc_files("MC_RunListeners", "RunListeners", c, invariants=invs, properties=props)
+    r = tlc.run(mod, cfg, extra_files=files, workers=8, timeout=1800)
+    ctx.add_tlc("RunListeners: bounded segments, listeners of every run-thread notification schedule and cancel", r)
+    if not r.ok:
+        raise tlc.MachineryError(f"RunListeners.tla violates {r.violated}")
+    # vacuity guard: a STOP stamped before the clock is moved to the bound is refuted
+    files, mod, cfg = tlc.mc_files("MC_RunListeners", "RunListeners", dict(c, StampLag="TRUE"), invariants=invs, properties=props)
+    rb = tlc.run(mod, cfg, extra_files=files, workers=8, timeout=1800)
+    if rb.ok:
+        raise tlc.MachineryError("RunListeners.tla with StampLag = TRUE was not refuted")
+    ctx.binding["run_listeners_stamp_lag_refuted"] = rb.violated
+    groups = {}
+    for i in range(int(scale * ctx.pick(160, 1600))):
+        conc = ("float", "int", "dur", "mixed", "float+6", "int-3")[i % 6]
+        end_t, warm_t = ((4, 1), (6, 0), (5, 2), (6, 6))[i % 4]
+        tr, errors = dt.run_segmented(conc, random.Random(ctx.seed * 104729 + i), end_t=end_t, warm_t=warm_t)
+        ctx.evaluations += 1
+        if errors:
+            ctx.violation("segment_listeners|" + errors[0].split()[0], f"segmented listener model {i} ({conc}, end {end_t}, warm-up {warm_t}): {errors}", {"trace": tr})
+            continue
+        groups.setdefault((end_t, warm_t), []).append((tr, f"segmented listener model {i} ({conc} clock, end {end_t}, warm-up {warm_t})"))
+        ctx.distinct.add(("rl", tuple((e["a"], e.get("by"), e.get("d"), e.get("b")) for e in tr)))
+    nl = {"START": 0, "STOP": 0, "TC": 0, "WARMUP": 0, "cancel": 0}
+    for (end_t, warm_t), items in sorted(groups.items()):
+        trs = [t for t, _ in items]; labels = [l for _, l in items]
+        tc = {"EndT": str(end_t), "WarmT": str(warm_t), "MaxEv": "100000", "Delays": "{0, 1, 2, 3}", "Prios": "{1, 5, 10}", "Bounds": "0..%d" % end_t, "StampLag": "FALSE"}
+        tmod = "---- MODULE TraceRunListeners_gen ----\nEXTENDS TraceRunListeners\n" + "\n".join(f"c_{k} == {v}" for k, v in tc.items()) + "\n====\n"
+        tcfg = ("SPECIFICATION TraceSpec\nCONSTANTS\n" + "\n".join(f"  {k} <- c_{k}" for k in tc) + "\nCONSTRAINT Progress\nPOSTCONDITION Post\n" +
+                "INVARIANT InvNothingInThePast\nINVARIANT InvStampIsNow\nINVARIANT InvExactlyOnce\nINVARIANT InvSegmentComplete\n"
+                "PROPERTY PropClockMonotone\nPROPERTY PropStampsMonotone\nCHECK_DEADLOCK FALSE\n")
+        rej, st = traces.validate("TraceRunListeners_gen", "TraceRunListeners_gen.cfg", trs, extra_files={"TraceRunListeners_gen.tla": tmod, "TraceRunListeners_gen.cfg": tcfg}, timeout=1800)
+        ctx.states += st["distinct"]; ctx.transitions += st["generated"]
+        ctx.tlc_runs.append({"model": f"TraceRunListeners (end {end_t}, warm-up {warm_t})", "traces": len(trs), **{k: (round(v, 2) if isinstance(v, float) else v) for k, v in st.items()}})
+        ctx.traces += len(trs)
+        for rj in rej:
+            e = rj.event or {}
+            key = f"segment_listeners|{e.get('a')}|{e.get('by', '-')}"
+            ctx.violation(key, f"{labels[rj.index]}: events 1..{rj.upto} are a behaviour of RunListeners.tla, event {rj.upto + 1} {e} is not "
+                               "(a notification stamped with another time than the simulator time, an event scheduled by a listener that got another time than stamp + delay, "
+                               "an event executed out of order / twice / not at all within its segment, or a clock that went back)",
+                          {"trace": rj.trace, "explained": rj.upto})
+        for t in trs:
+            w = None
+            for e in t:
+                if e["a"] in ("Start", "Stop", "TC"):
+                    w = {"Start": "START", "Stop": "STOP", "TC": "TC"}[e["a"]]
+                elif e["a"] == "Exec":
+                    w = "WARMUP" if e["id"] == 1 else None
+                elif e["a"] == "Sched" and e["by"] == "listener" and w:
+                    nl[w] += 1
+                elif e["a"] == "Cancel":
+                    nl["cancel"] += 1
+    ctx.notes["segment_listener_actions"] = nl
+    if groups and min(nl.values()) < 5 and not ctx.violations:
+        raise tlc.MachineryError(f"vacuity: the listeners of the segmented runs did almost nothing: {nl}")
+
+
 def run(ctx: Ctx):
     ctx.assumptions += ["event identity = creation rank within the replication; times on the k/4 grid",
                         "controller waits for the run thread to be parked before observing (quiescence)",
@@ -132,4 +197,5 @@ def run(ctx: Ctx):
             ctx.sample({"kind": "C->S trace (prefix)", "events": dd.clean_trace(ctl.trace)[:10]})
     dc.validate_groups(ctx, groups)
     listener_scheduling(ctx)
+    segment_listeners(ctx)
     dc.selftest(ctx, groups)
